@@ -532,6 +532,91 @@ theorem kv_cmd_rel (R : State → State → Prop) (hrefl : ∀ s, R s s)
               simp [hq, Except.map] at hr
               exact hr.1 ▸ kvUnlockTxn_rel R hrefl hset hq
 
+/-! ### the same, for relations that mention the command's index -/
+
+theorem kvDeleteCasTxn_relI (R : Nat → State → State → Prop) (hrefl : ∀ i s, R i s s)
+    (hdel : ∀ s s' idx k, kvDeleteTxn s idx k = .ok s' → R idx s s')
+    {s s' : State} {idx c : Nat} {k : Key} {b : Bool}
+    (hr : kvDeleteCasTxn s idx c k = .ok (s', b)) : R idx s s' := by
+  simp only [kvDeleteCasTxn] at hr
+  repeat' (split at hr)
+  all_goals (try simp at hr)
+  all_goals (obtain ⟨rfl, -⟩ := hr)
+  all_goals (first | exact hrefl _ _ | exact hdel _ _ _ _ (by assumption))
+
+theorem kvSetCasTxn_relI (R : Nat → State → State → Prop) (hrefl : ∀ i s, R i s s)
+    (hset : ∀ s s' idx e w upd, kvSetTxn s idx e upd = .ok (s', w) → R idx s s')
+    {s s' : State} {idx : Nat} {e w : KV} {b : Bool}
+    (hr : kvSetCasTxn s idx e = .ok (s', b, w)) : R idx s s' := by
+  simp only [kvSetCasTxn] at hr
+  repeat' (split at hr)
+  all_goals (try simp at hr)
+  all_goals (obtain ⟨rfl, -⟩ := hr)
+  all_goals (first | exact hrefl _ _ | exact hset _ _ _ _ _ _ (by assumption))
+
+theorem kvLockTxn_relI (R : Nat → State → State → Prop) (hrefl : ∀ i s, R i s s)
+    (hset : ∀ s s' idx e w upd, kvSetTxn s idx e upd = .ok (s', w) → R idx s s')
+    {s s' : State} {idx : Nat} {e w : KV} {b : Bool}
+    (hr : kvLockTxn s idx e = .ok (s', b, w)) : R idx s s' := by
+  simp only [kvLockTxn] at hr
+  repeat' (split at hr)
+  all_goals (try simp at hr)
+  all_goals (obtain ⟨rfl, -⟩ := hr)
+  all_goals (first | exact hrefl _ _ | exact hset _ _ _ _ _ _ (by assumption))
+
+theorem kvUnlockTxn_relI (R : Nat → State → State → Prop) (hrefl : ∀ i s, R i s s)
+    (hset : ∀ s s' idx e w upd, kvSetTxn s idx e upd = .ok (s', w) → R idx s s')
+    {s s' : State} {idx : Nat} {e w : KV} {b : Bool}
+    (hr : kvUnlockTxn s idx e = .ok (s', b, w)) : R idx s s' := by
+  simp only [kvUnlockTxn] at hr
+  repeat' (split at hr)
+  all_goals (try simp at hr)
+  all_goals (obtain ⟨rfl, -⟩ := hr)
+  all_goals (first | exact hrefl _ _ | exact hset _ _ _ _ _ _ (by assumption))
+
+theorem kv_cmd_relI (R : Nat → State → State → Prop) (hrefl : ∀ i s, R i s s)
+    (hset : ∀ s s' idx e w upd, kvSetTxn s idx e upd = .ok (s', w) → R idx s s')
+    (hdel : ∀ s s' idx k, kvDeleteTxn s idx k = .ok s' → R idx s s')
+    (htree : ∀ s idx p, R idx s (kvDeleteTreeTxn s idx p))
+    (s : State) (idx : Nat) (c : Cmd) (op : KvOp) (h : kvOpOf c = some op) : R idx s (apply s idx c).1 := by
+  cases c <;> simp only [kvOpOf] at h <;> try (cases h)
+  · rename_i e
+    apply rel_liftS (hrefl idx)
+    intro s' hr
+    cases hq : kvSetTxn s idx e false with
+    | error x => simp [hq, Except.map] at hr
+    | ok p => obtain ⟨s1, w⟩ := p
+              simp [hq, Except.map] at hr
+              exact hr ▸ hset _ _ _ _ _ _ hq
+  · rename_i e
+    apply rel_liftB (hrefl idx)
+    intro s' b hr
+    cases hq : kvSetCasTxn s idx e with
+    | error x => simp [hq, Except.map] at hr
+    | ok p => obtain ⟨s1, b1, w⟩ := p
+              simp [hq, Except.map] at hr
+              exact hr.1 ▸ kvSetCasTxn_relI R hrefl hset hq
+  · exact rel_liftS (hrefl idx) (fun s' hr => hdel _ _ _ _ hr)
+  · exact rel_liftB (hrefl idx) (fun s' b hr => kvDeleteCasTxn_relI R hrefl hdel hr)
+  · exact htree _ _ _
+  · rename_i e
+    apply rel_liftB (hrefl idx)
+    intro s' b hr
+    cases hq : kvLockTxn s idx e with
+    | error x => simp [hq, Except.map] at hr
+    | ok p => obtain ⟨s1, b1, w⟩ := p
+              simp [hq, Except.map] at hr
+              exact hr.1 ▸ kvLockTxn_relI R hrefl hset hq
+  · rename_i e
+    apply rel_liftB (hrefl idx)
+    intro s' b hr
+    cases hq : kvUnlockTxn s idx e with
+    | error x => simp [hq, Except.map] at hr
+    | ok p => obtain ⟨s1, b1, w⟩ := p
+              simp [hq, Except.map] at hr
+              exact hr.1 ▸ kvUnlockTxn_relI R hrefl hset hq
+
+
 /-! ### create index -/
 
 /-- a key present before and after carries the same create index -/
